@@ -1,1 +1,276 @@
-import SwcVerif.Model.Basic
+import SwcVerif.Model.Branches
+import SwcVerif.Proofs.Traverse
+import Mathlib.Data.List.Perm.Basic
+/-! # C08 — branches, paths, tips and furcations decompose the tree exactly
+
+The traversal loop is C04's machine (`Trav.main`); the callbacks are the models of
+`collect_branches`, `assign_path`/`collect_path`, `collect_furcations` (`Model/Branches.lean`, tied to the
+code by the `c08.decomp` correspondence).  All statements are for every rose `r` that represents the
+table (any shape, depth, distinct numbering); degrees are read off the table (`tableKids`). -/
+namespace C08
+open Trav Branches
+
+/-- consecutive pairs of a list: the edges a branch / path runs along -/
+def pairs : List Int → List (Int × Int)
+  | a :: b :: t => (a, b) :: pairs (b :: t)
+  | _ => []
+
+-- the (parent, child) edges of a rose
+mutual
+def edges : Rose → List (Int × Int)
+  | .node i ks => ks.map (fun k => (i, k.id)) ++ edgesL ks
+def edgesL : List Rose → List (Int × Int)
+  | [] => []
+  | r :: rs => edges r ++ edgesL rs
+end
+
+-- ids of the childless nodes, in table (pre-)order
+mutual
+def tipsOf : Rose → List Int
+  | .node i [] => [i]
+  | .node _ (k :: ks) => tipsOfL (k :: ks)
+def tipsOfL : List Rose → List Int
+  | [] => []
+  | r :: rs => tipsOf r ++ tipsOfL rs
+end
+
+-- ids of the nodes with two or more children
+mutual
+def furcsOf : Rose → List Int
+  | .node i ks => (if ks.length > 1 then [i] else []) ++ furcsOfL ks
+def furcsOfL : List Rose → List Int
+  | [] => []
+  | r :: rs => furcsOf r ++ furcsOfL rs
+end
+
+/-- the value `collect_branches` computes for a rose (structural recursion = what the loop computes, C04) -/
+def branchVal (r : Rose) : BVal := (spec bEnter bLeave r none ()).2
+/-- `get_branches` of a rose -/
+def branchesOf (r : Rose) : List (List Int) := finish (branchVal r)
+
+/-! ## helper lemmas -/
+
+mutual
+theorem rose_ind {P : Rose → Prop} (h : ∀ i ks, (∀ k ∈ ks, P k) → P (.node i ks)) : ∀ r, P r
+  | .node i ks => h i ks (rose_indL h ks)
+theorem rose_indL {P : Rose → Prop} (h : ∀ i ks, (∀ k ∈ ks, P k) → P (.node i ks)) : ∀ ks : List Rose, ∀ k ∈ ks, P k
+  | [] => by simp
+  | r :: rs => by
+    intro k hk
+    simp only [List.mem_cons] at hk
+    rcases hk with h1 | h1
+    · rw [h1]; exact rose_ind h r
+    · exact rose_indL h rs k h1
+end
+
+theorem edgesL_eq (ks : List Rose) : edgesL ks = ks.flatMap edges := by
+  induction ks with
+  | nil => simp [edgesL]
+  | cons r rs ih => simp [edgesL, ih]
+theorem tipsOfL_eq (ks : List Rose) : tipsOfL ks = ks.flatMap tipsOf := by
+  induction ks with
+  | nil => simp [tipsOfL]
+  | cons r rs ih => simp [tipsOfL, ih]
+theorem furcsOfL_eq (ks : List Rose) : furcsOfL ks = ks.flatMap furcsOf := by
+  induction ks with
+  | nil => simp [furcsOfL]
+  | cons r rs ih => simp [furcsOfL, ih]
+theorem idsL_eq (ks : List Rose) : idsL ks = ks.flatMap Rose.ids := by
+  induction ks with
+  | nil => simp [idsL]
+  | cons r rs ih => simp [idsL, ih]
+theorem agreesL_iff (kidsOf : Int → List Int) (ks : List Rose) : AgreesL kidsOf ks ↔ ∀ k ∈ ks, Agrees kidsOf k := by
+  induction ks with
+  | nil => simp [AgreesL]
+  | cons r rs ih => simp [AgreesL, ih]
+
+theorem spec_b (r : Rose) (pv : Option Unit) (s : Unit) : spec bEnter bLeave r pv s = ((), branchVal r) := by
+  cases r; rfl
+theorem specRev_b (ks : List Rose) (cur : Unit) (s : Unit) : specRev bEnter bLeave ks cur s = ((), ks.map branchVal) := by
+  induction ks with
+  | nil => rfl
+  | cons r rs ih => simp [specRev, ih, spec_b]
+theorem branchVal_node (i : Int) (ks : List Rose) : branchVal (.node i ks) = collectBranches i (ks.map branchVal) := by
+  simp [branchVal, spec, specRev_b, bLeave, bEnter]
+
+theorem cb_nil (i : Int) : collectBranches i [] = ([], [i]) := rfl
+theorem cb_one (i : Int) (p : BVal) : collectBranches i [p] = (p.1, p.2 ++ [i]) := by cases p; rfl
+theorem cb_many (i : Int) (p q : BVal) (t : List BVal) : collectBranches i (p :: q :: t) =
+    ((p :: q :: t).flatMap (fun sc => (sc.1 ++ [(sc.2 ++ [i]).reverse]).reverse), [i]) := rfl
+
+
+/-- the loop computes `branchesOf` (instance of C04's core theorem) -/
+theorem getBranches_eq (ids pids : List Int) (r : Rose) (h : Represents r ids pids) :
+    getBranches ids pids r.id (2 * r.size) = branchesOf r := by
+  have hm := main (tableKids ids pids) bEnter bLeave r h.1 h.2 [] (fun _ => none) (fun _ => none) ()
+  obtain ⟨_, _, h3, _, _⟩ := hm
+  simp only [getBranches, init]
+  rw [h3]
+  rfl
+
+/-- **The branches partition the edges**: listing the consecutive node pairs of all branches gives every
+parent–child edge of the tree exactly once (a permutation of the edge list). -/
+theorem branches_partition_edges (r : Rose) :
+    ((branchesOf r).flatMap pairs).Perm (edges r) := by
+  sorry
+
+/-- **Shape of every branch**: it has at least two nodes, starts at the root or at a furcation, ends at a
+furcation or a tip, and has only pass-through (one-child) nodes in between. -/
+theorem branch_shape (kidsOf : Int → List Int) (r : Rose) (hA : Agrees kidsOf r) (b : List Int) (hb : b ∈ branchesOf r) :
+    ∃ top mid last, b = top :: (mid ++ [last]) ∧
+      (top = r.id ∨ 2 ≤ (kidsOf top).length) ∧
+      (∀ m ∈ mid, (kidsOf m).length = 1) ∧
+      ((kidsOf last).length = 0 ∨ 2 ≤ (kidsOf last).length) := by
+  sorry
+
+/-- the end points of the branches are exactly the non-root furcations and tips, each once
+(so `BranchTree.from_tree` keeps exactly root ∪ furcations ∪ tips) -/
+theorem branch_ends (r : Rose) (hD : r.ids.Nodup) :
+    ((branchesOf r).map (fun b => b.getLastD r.id)).Perm
+      ((furcsOf r ++ tipsOf r).erase r.id) := by
+  sorry
+
+/-- `get_paths` of a rose -/
+def pathsOf (r : Rose) : List (List Int) := (spec pEnter pLeave r none (fun _ => none)).2
+
+theorem getPaths_eq (ids pids : List Int) (r : Rose) (h : Represents r ids pids) :
+    getPaths ids pids r.id (2 * r.size) = pathsOf r := by
+  have hm := main (tableKids ids pids) pEnter pLeave r h.1 h.2 [] (fun _ => none) (fun _ => none) (fun _ => none)
+  obtain ⟨_, _, h3, _, _⟩ := hm
+  simp only [getPaths, init]
+  rw [h3]
+  rfl
+
+/-- **exactly one root-to-tip path per tip**: the paths' end points are the tips, in order, each path
+starts at the root and runs along parent–child edges -/
+theorem paths_one_per_tip (r : Rose) :
+    (pathsOf r).map (fun p => p.getLastD r.id) = tipsOf r ∧
+    (∀ p ∈ pathsOf r, p.head? = some r.id ∧ ∀ e ∈ pairs p, e ∈ edges r) := by
+  sorry
+
+theorem tableKids_nil_iff : ∀ (ids pids : List Int), ids.length = pids.length →
+    ∀ j, tableKids ids pids j = [] ↔ j ∉ pids
+  | [], [], _, j => by simp [tableKids]
+  | [], _ :: _, h, j => by simp at h
+  | _ :: _, [], h, j => by simp at h
+  | i :: is, p :: ps, h, j => by
+    simp only [tableKids]
+    have ih := tableKids_nil_iff is ps (by simpa using h) j
+    by_cases hp : p = j
+    · simp [hp]
+    · have hp' : ¬ j = p := fun e => hp e.symm
+      simp [hp, hp', ih]
+
+/-- **tips are exactly the childless nodes** (`setdiff1d(ids, pids)`) -/
+theorem tips_eq_childless (ids pids : List Int) (hl : ids.length = pids.length) (j : Int) :
+    j ∈ getTips ids pids ↔ j ∈ ids ∧ tableKids ids pids j = [] := by
+  rw [tableKids_nil_iff ids pids hl j]
+  simp [getTips, List.mem_filter]
+
+/-- the childless nodes of the table are the leaves of the rose -/
+theorem tipsOf_childless (kidsOf : Int → List Int) (r : Rose) (hA : Agrees kidsOf r) (j : Int) :
+    j ∈ tipsOf r ↔ j ∈ r.ids ∧ kidsOf j = [] := by
+  revert hA j
+  induction r using rose_ind with
+  | h i ks ih =>
+    intro hA j
+    simp only [Agrees] at hA
+    obtain ⟨hk, hAL⟩ := hA
+    rw [agreesL_iff] at hAL
+    cases ks with
+    | nil =>
+      simp only [tipsOf, Rose.ids, idsL, List.mem_singleton]
+      constructor
+      · rintro rfl; exact ⟨rfl, by simpa using hk⟩
+      · exact fun h => h.1
+    | cons k ks' =>
+      simp only [tipsOf, tipsOfL_eq, Rose.ids, idsL_eq, List.mem_flatMap, List.mem_cons]
+      constructor
+      · rintro ⟨k', hk', hj⟩
+        have := (ih k' hk' (hAL k' hk') j).1 hj
+        exact ⟨Or.inr ⟨k', hk', this.1⟩, this.2⟩
+      · rintro ⟨hj | ⟨k', hk', hj⟩, h0⟩
+        · subst hj; rw [hk] at h0; simp at h0
+        · exact ⟨k', hk', (ih k' hk' (hAL k' hk') j).2 ⟨hj, h0⟩⟩
+
+theorem specRev_len {σ T K : Type} (enter : σ → Int → Option T → σ × T) (leave : σ → Int → List K → σ × K) :
+    ∀ (ks : List Rose) (cur : T) (s : σ), (specRev enter leave ks cur s).2.length = ks.length
+  | [], _, _ => rfl
+  | r :: rs, cur, s => by simp [specRev, specRev_len enter leave rs cur s]
+
+-- the accumulator of `collect_furcations` after a subtree: what it was, plus the subtree's furcations
+mutual
+theorem spec_f : ∀ (r : Rose) (pv : Option Unit) (acc : List Int),
+    (spec fEnter fLeave r pv acc).1.Perm (acc ++ furcsOf r)
+  | .node i ks, pv, acc => by
+    simp only [spec, fEnter, fLeave, furcsOf]
+    have h := specRev_f ks () acc
+    rw [specRev_len]
+    split
+    · refine (h.append_right [i]).trans ?_
+      rw [List.perm_iff_count]; intro a
+      simp only [List.count_append]; omega
+    · simpa using h
+theorem specRev_f : ∀ (ks : List Rose) (cur : Unit) (acc : List Int),
+    (specRev fEnter fLeave ks cur acc).1.Perm (acc ++ furcsOfL ks)
+  | [], _, acc => by simp [specRev, furcsOfL]
+  | r :: rs, cur, acc => by
+    simp only [specRev, furcsOfL]
+    have h1 := specRev_f rs cur acc
+    have h2 := spec_f r (some cur) (specRev fEnter fLeave rs cur acc).1
+    refine h2.trans ((h1.append_right _).trans ?_)
+    rw [List.perm_iff_count]; intro a
+    simp only [List.count_append]; omega
+end
+
+/-- **furcations are exactly the nodes with two or more children** -/
+theorem furcations_eq (ids pids : List Int) (r : Rose) (h : Represents r ids pids) :
+    (getFurcations ids pids r.id (2 * r.size)).Perm (furcsOf r) := by
+  have hm := main (tableKids ids pids) fEnter fLeave r h.1 h.2 [] (fun _ => none) (fun _ => none) []
+  obtain ⟨_, h2, _, _, _⟩ := hm
+  simp only [getFurcations, init]
+  rw [h2]
+  simpa using spec_f r none []
+
+theorem furcsOf_ge2 (kidsOf : Int → List Int) (r : Rose) (hA : Agrees kidsOf r) (hD : r.ids.Nodup) (j : Int) :
+    j ∈ furcsOf r ↔ j ∈ r.ids ∧ 2 ≤ (kidsOf j).length := by
+  clear hD
+  revert hA j
+  induction r using rose_ind with
+  | h i ks ih =>
+    intro hA j
+    simp only [Agrees] at hA
+    obtain ⟨hk, hAL⟩ := hA
+    rw [agreesL_iff] at hAL
+    have hlen : (kidsOf i).length = ks.length := by rw [hk]; simp
+    simp only [furcsOf, furcsOfL_eq, Rose.ids, idsL_eq, List.mem_append, List.mem_flatMap, List.mem_cons]
+    constructor
+    · rintro (hj | ⟨k', hk', hj⟩)
+      · split at hj
+        · simp only [List.mem_singleton] at hj
+          subst hj; exact ⟨Or.inl rfl, by omega⟩
+        · simp at hj
+      · have := (ih k' hk' (hAL k' hk') j).1 hj
+        exact ⟨Or.inr ⟨k', hk', this.1⟩, this.2⟩
+    · rintro ⟨hj | ⟨k', hk', hj⟩, h2⟩
+      · subst hj
+        left
+        rw [if_pos (by omega)]; simp
+      · exact Or.inr ⟨k', hk', (ih k' hk' (hAL k' hk') j).2 ⟨hj, h2⟩⟩
+
+/-- **the branch tree's table**: one node for the root and one per branch end; each hangs from the
+head of its branch — i.e. nodes = root ∪ furcations ∪ tips joined as the branches join them -/
+theorem branchTree_table (root : Int) (brs : List (List Int)) :
+    (branchTreeTable root brs).1 = root :: brs.map (fun b => b.getLastD root) ∧
+    (branchTreeTable root brs).2 = -1 :: brs.map (fun b => b.headD root) := by
+  exact ⟨rfl, rfl⟩
+
+-- non-vacuity / concrete behaviour (kernel-evaluated)
+def exR : Rose := .node 0 [.node 1 [.node 2 [.node 3 [], .node 4 [.node 5 []]], .node 6 []]]
+example : branchesOf exR = [[0, 1], [1, 2], [2, 4, 5], [2, 3], [1, 6]] := by decide +kernel
+example : branchesOf (.node 0 [.node 1 [.node 2 []]]) = [[0, 1, 2]] := by decide +kernel
+example : branchesOf (.node 0 []) = [] := by decide +kernel
+example : (branchesOf exR).flatMap pairs = [(0, 1), (1, 2), (2, 4), (4, 5), (2, 3), (1, 6)] := by decide +kernel
+example : pathsOf exR = [[0, 1, 2, 3], [0, 1, 2, 4, 5], [0, 1, 6]] := by decide +kernel
+
+end C08
